@@ -25,6 +25,8 @@ META = {
                     "shapes they are asked for"],
     "floors": {"FIELDS": 14, "ESTABLISH": 8, "PRESERVE": 10, "WHO-WRITES": 100, "CTOR-ARG": 60, "GETTER": 3},
 }
+from ..inline import inlined  # noqa: E402  (extract-method refactorings of the constructor / writers are read through)
+
 ANCHORS = ["_tt_base.TT.__init__", "_tt_base.TT.set_core", "_tt_base.TT.reduce_dims", "_tt_base.TT.N", "_tt_base.TT.M",
            "_tt_base.TT.R"]
 TT = "_tt_base.TT."
@@ -72,7 +74,7 @@ def ctor_leaf_paths(fn: ast.FunctionDef):
 
 
 def rule_fields(model: Model):
-    f = model.func(TT + "__init__")
+    f = inlined(model, model.func(TT + "__init__"))
     obs = []
     paths = ctor_leaf_paths(f.node)
     for label, acc, ttm in paths:
@@ -208,7 +210,7 @@ def rule_establish(model: Model):
     """The core-list branch of the constructor validates before it stores.  Locals are recognised by what they hold, not by name:
     the shape alias (X = source[i].shape), the order (len(source)), and the three metadata lists by which axis of the shape each
     branch (3-axis / 4-axis cores) appends to them: R <- last axis, N <- the column mode, M <- the row mode of 4-axis cores."""
-    f = model.func(TT + "__init__")
+    f = inlined(model, model.func(TT + "__init__"))
     obs = []
     branch = None
     for n in ast.walk(f.node):
@@ -219,15 +221,27 @@ def rule_establish(model: Model):
                    "core-list branch of the constructor not found")]
     body = branch.body
     # shape alias(es)
+    # names bound to one core of the list: loop variables over `source` / `enumerate(source)`
+    core_vars = set()
+    for n in ast.walk(branch):
+        if isinstance(n, ast.For):
+            it = norm(n.iter).replace(" ", "")
+            if it == "source" and isinstance(n.target, ast.Name):
+                core_vars.add(n.target.id)
+            elif it == "enumerate(source)" and isinstance(n.target, ast.Tuple) and len(n.target.elts) == 2 and isinstance(n.target.elts[1], ast.Name):
+                core_vars.add(n.target.elts[1].id)
+
+    def is_core(e):
+        return norm(e).startswith("source[") or (isinstance(e, ast.Name) and e.id in core_vars)
     shape_alias = {n.targets[0].id for n in ast.walk(branch) if isinstance(n, ast.Assign) and isinstance(n.targets[0], ast.Name)
-                   and isinstance(n.value, ast.Attribute) and n.value.attr == "shape" and norm(n.value.value).startswith("source[")}
+                   and isinstance(n.value, ast.Attribute) and n.value.attr == "shape" and is_core(n.value.value)}
     orders = {n.targets[0].id for n in ast.walk(branch) if isinstance(n, ast.Assign) and isinstance(n.targets[0], ast.Name) and norm(n.value) == "len(source)"}
 
     def axis_of(e):
         """axis index when e is <shape alias>[c] or source[..].shape[c]"""
         if isinstance(e, ast.Subscript) and isinstance(e.slice, ast.Constant) and isinstance(e.slice.value, int):
             base = e.value
-            if (isinstance(base, ast.Name) and base.id in shape_alias) or (isinstance(base, ast.Attribute) and base.attr == "shape" and norm(base.value).startswith("source[")):
+            if (isinstance(base, ast.Name) and base.id in shape_alias) or (isinstance(base, ast.Attribute) and base.attr == "shape" and is_core(base.value)):
                 return e.slice.value
         return None
 
@@ -374,7 +388,7 @@ def _rank_guard_pairs(test: ast.AST):
 
 def rule_preserve(model: Model):
     obs = []
-    f = model.func(TT + "set_core")
+    f = inlined(model, model.func(TT + "set_core"))
     top_ifs = [s for s in f.node.body if isinstance(s, ast.If)]
     kind_if = [s for s in top_ifs if "self.__is_ttm" in norm(s.test)]
     if not kind_if:
@@ -419,7 +433,7 @@ def rule_preserve(model: Model):
                               "mode sizes would no longer describe the cores"))
     # shape recomputed on every normal exit of set_core and reduce_dims
     for fn in ("set_core", "reduce_dims"):
-        ff = model.func(TT + fn)
+        ff = inlined(model, model.func(TT + fn))
         k = f"{TT}{fn}:PRESERVE:shape-recomputed"
         last_stmts = _exit_blocks(ff.node)
         ok = all(_assigns_shape_after_core_store(b) for b in last_stmts)
@@ -427,7 +441,7 @@ def rule_preserve(model: Model):
                       "shape recomputed after the cores change" if ok else
                       f"{fn} changes cores/N/M but leaves self.shape as it was: x.shape no longer describes the object"))
     # reduce_dims rebuilds N/M/R from the reduced core list with the right axes, in both kind branches
-    rd = model.func(TT + "reduce_dims")
+    rd = inlined(model, model.func(TT + "reduce_dims"))
     kind_if = [s for s in rd.node.body if isinstance(s, ast.If) and "self.__is_ttm" in norm(s.test)]
     if not kind_if:
         obs.append(Ob("PRESERVE", f"{TT}reduce_dims:PRESERVE:kind-dispatch", ERROR, model.where(rd), "if self.__is_ttm", "dispatch not found"))
@@ -562,15 +576,19 @@ def rule_who_writes(model: Model, eng: Effects):
         bad = []
         for e in s.effects:
             steps = e.steps
-            hits_field = (e.kind == "attr-store") or (steps and steps[-1].lstrip(".") in fields and e.kind in ("store", "list-mutation")) \
+            hits_field = (e.kind == "attr-store" and e.attr in fields) or (steps and steps[-1].lstrip(".") in fields and e.kind in ("store", "list-mutation")) \
                 or (len(steps) >= 1 and steps[0].lstrip(".") in fields and e.kind in ("store", "list-mutation"))
             if hits_field:
                 bad.append(e)
         k = f"{f.short}:WHO-WRITES:fields"
+        if f.cls == "TT" and f.name.startswith("_") and not (f.name.startswith("__") and f.name.endswith("__")):
+            # a private helper of the class is not an entry point: its stores are charged to the methods that call it (call-chain effects)
+            obs.append(Ob("WHO-WRITES", k, OK, model.where(f), f.short, "private helper: its effects are checked at its callers"))
+            continue
         if f.short in allow or f.cls not in (None, "TT") and f.name == "__init__":
             obs.append(Ob("WHO-WRITES", k, OK, model.where(f), f.short, "allowlisted writer" if f.short in allow else "constructor of another class"))
             continue
-        if bad and (f.cls == "TT" or any(".cores" in "".join(e.steps) or e.kind == "attr-store" for e in bad)):
+        if bad and (f.cls == "TT" or any(".cores" in "".join(e.steps) or e.kind == "attr-store" for e in bad)):   # attr-store: of a TT field (see hits_field)
             e = bad[0]
             # writes to rank lists handed in as plain arguments (lr_orthogonal's R) are not TT fields
             if not any(st.startswith(".") for st in e.steps) and e.kind != "attr-store":
